@@ -421,6 +421,18 @@ func asteriskDefineProcess(
 
 	asteriskArrayT := base.MakeAnyArray()
 
+	// a configured rest parameter keeps its declaration
+	restT :=
+		base.GetValueT(
+			m.evaluatedObjectT.GetFrame(),
+			class,
+			m.method,
+			definedArgNames[defineArgIdx][1:],
+			isStatic,
+		)
+
+	isConfigured := restT.IsBuiltin()
+
 	mustBindCt := 0
 	for _, name := range definedArgNames[defineArgIdx+1:] {
 		if !base.IsKeySuffix(name) {
@@ -438,14 +450,16 @@ func asteriskDefineProcess(
 	}
 
 	if mustBindCt >= len(positionalArgTs) {
-		base.SetValueT(
-			m.evaluatedObjectT.GetFrame(),
-			class,
-			m.method,
-			definedArgNames[defineArgIdx][1:],
-			asteriskArrayT,
-			isStatic,
-		)
+		if !isConfigured {
+			base.SetValueT(
+				m.evaluatedObjectT.GetFrame(),
+				class,
+				m.method,
+				definedArgNames[defineArgIdx][1:],
+				asteriskArrayT,
+				isStatic,
+			)
+		}
 
 		defineArgIdx++
 
@@ -462,14 +476,16 @@ func asteriskDefineProcess(
 		argIdx++
 	}
 
-	base.SetValueT(
-		m.evaluatedObjectT.GetFrame(),
-		class,
-		m.method,
-		definedArgNames[defineArgIdx][1:],
-		asteriskArrayT,
-		isStatic,
-	)
+	if !isConfigured {
+		base.SetValueT(
+			m.evaluatedObjectT.GetFrame(),
+			class,
+			m.method,
+			definedArgNames[defineArgIdx][1:],
+			asteriskArrayT,
+			isStatic,
+		)
+	}
 
 	argIdx++
 	defineArgIdx++
